@@ -21,7 +21,9 @@ FrameMal == {"len_zero", "len_three", "len_negative", "len_huge", "len_longer_th
 BodyMal == {"query_empty_body", "query_no_terminator", "parse_empty_body", "parse_no_terminator", "parse_huge_param_count",
             "bind_empty_body", "bind_counts_inconsistent", "bind_negative_counts", "describe_empty_body", "describe_bad_target",
             "close_empty_body", "execute_empty_body", "statement_name_invalid_utf8", "bind_param_length_negative",
-            "bind_param_length_huge"}
+            "bind_param_length_huge",
+            \* well-framed messages whose SQL text is pathological for a recursive-descent parser (query parser on)
+            "query_deeply_nested", "parse_deeply_nested"}
 OrderMal == {"stray_sync", "stray_copydata", "stray_copydone", "stray_copyfail", "stray_execute", "stray_bind",
              "stray_describe", "stray_flush", "password_message_now"}
 \* abrupt departures: the sender's socket is reset while a request of his is queued or half served
